@@ -1596,6 +1596,11 @@ func (h *c18hist) genDatum() {
 	size := h.genSize()
 	// in a history with builder-time faults every sixth placement is aimed at existing data
 	bad := h.r.intn(1000) < h.pFault || (h.pFault > 0 && len(h.data) > 0 && h.r.chance(1, 6))
+	if h.r.chance(1, 3) {
+		// at scale: relative to the 8 … 4096-byte boundaries of the section
+		h.genDatumBoundary(bad)
+		return
+	}
 	off := h.gsize
 	switch {
 	case !bad && len(h.data) > 0 && h.r.chance(1, 10):
@@ -1642,6 +1647,7 @@ func (h *c18hist) genDatum() {
 		h.stats["datum_negative"]++
 		return
 	}
+	h.noteDatum(off, size)
 	h.op("datum", itoa(off), itoa(size))
 	h.call("AddDatum", func() {
 		h.a.AddDatum(off, v)
@@ -2604,7 +2610,7 @@ var c18scratch string
 
 // c18mainViaFlags runs build.Main with the Config that build.NewFlags(...).Config() yields for
 // "-out F1 -stubs F2 -log F3 -e -pkg p" and reads the three files back into the buffers.
-func c18mainViaFlags(ctx *build.Context, asm, stubs, diag *bytes.Buffer, stats map[string]int) int {
+func c18mainViaFlags(ctx *build.Context, asm, stubs, diag *bytes.Buffer, stats map[string]int, allErrors bool) int {
 	names := []string{filepath.Join(c18scratch, "out.s"), filepath.Join(c18scratch, "stubs.go"), filepath.Join(c18scratch, "log.txt")}
 	// a previous generation's output is in place
 	for _, n := range names[:2] {
@@ -2614,7 +2620,11 @@ func c18mainViaFlags(ctx *build.Context, asm, stubs, diag *bytes.Buffer, stats m
 	}
 	fs := flag.NewFlagSet("c18", flag.ContinueOnError)
 	fl := build.NewFlags(fs)
-	if err := fs.Parse([]string{"-out", names[0], "-stubs", names[1], "-log", names[2], "-e", "-pkg", "p"}); err != nil {
+	args := []string{"-out", names[0], "-stubs", names[1], "-log", names[2], "-pkg", "p"}
+	if allErrors {
+		args = append(args, "-e") // otherwise at most 10 messages and "too many errors"
+	}
+	if err := fs.Parse(args); err != nil {
 		panic("harness: " + err.Error())
 	}
 	cfg := fl.Config()
@@ -2659,6 +2669,22 @@ type c18result struct {
 	acceptReq       string
 	maxReq, maxResp string
 	class           string
+
+	// for the child-process route: the history once more, and what was seen in-process
+	api     string   // ctx | pkg
+	hdrRest []string // f3a= … n=
+	toks    []string
+	msgs    []string
+	errs    int
+	clean   bool // no nil argument, no panic
+}
+
+// c18opt: how one history is produced and run.
+type c18opt struct {
+	script func(h *c18hist)
+	pkg    bool // (scripts) through the package-level functions
+	flags  int  // 0: drawn (random histories only), 1: Main on buffers, 2: Main on build.NewFlags(...).Config()
+	limit  int  // with flags: 0 drawn, 1 "-e" (unlimited), 2 the default limit of 10 messages
 }
 
 func c18bit(b bool) string {
@@ -2668,7 +2694,8 @@ func c18bit(b bool) string {
 	return "0"
 }
 
-func c18run(r *rng, limits map[int]int, stats map[string]int, script func(h *c18hist), scriptPkg bool) c18result {
+func c18run(r *rng, limits map[int]int, stats map[string]int, opt c18opt) c18result {
+	script, scriptPkg := opt.script, opt.pkg
 	ctx := build.NewContext()
 	h := &c18hist{r: r, a: &c18api{c: ctx}, stats: stats}
 	route := "ctx"
@@ -2751,7 +2778,24 @@ func c18run(r *rng, limits map[int]int, stats map[string]int, script func(h *c18
 	}
 	h.closeFn()
 
-	hdr := []string{"route=" + route, "f3a=" + c18bit(h.f3a), "f3b=" + c18bit(h.f3b), "f4=" + c18bit(h.f4), "f9=" + c18bit(h.f9), "n=" + itoa(h.nops)}
+	if c18childCfg != nil {
+		// the child process of the `child` route: the same history, handed to build.Generate()
+		c18childGenerate(ctx)
+	}
+	viaFlags := c18scratch != "" && ((script == nil && opt.flags == 0 && r.chance(1, 8)) || opt.flags == 2)
+	mx := 0
+	if viaFlags && (opt.limit == 2 || (opt.limit == 0 && r.chance(1, 2))) {
+		mx = 10
+	}
+	routeTag := route
+	if viaFlags {
+		routeTag += ".flags"
+	}
+	if mx > 0 {
+		routeTag += fmt.Sprintf(".mx%d", mx)
+	}
+	hdrRest := []string{"f3a=" + c18bit(h.f3a), "f3b=" + c18bit(h.f3b), "f4=" + c18bit(h.f4), "f9=" + c18bit(h.f9), "n=" + itoa(h.nops)}
+	hdr := append([]string{"route=" + routeTag}, hdrRest...)
 	line := strings.Join(append(hdr, h.toks...), " ")
 
 	// ---- observe
@@ -2815,12 +2859,14 @@ func c18run(r *rng, limits map[int]int, stats map[string]int, script func(h *c18
 	}
 	status := -1
 	builderPanics := h.panics
-	viaFlags := script == nil && c18scratch != "" && r.chance(1, 8)
 	var mainPanicked bool
 	if viaFlags {
-		// the configuration build.Generate uses: build.NewFlags on a private FlagSet, -out/-stubs/-log files, -e
+		// the configuration build.Generate uses: build.NewFlags on a private FlagSet, -out/-stubs/-log files, -e or not
 		stats["main_via_flags"]++
-		mainPanicked = h.call("Main", func() { status = c18mainViaFlags(ctx, &asm, &stubs, &diag, stats) })
+		if mx > 0 {
+			stats["main_via_flags_limit10"]++
+		}
+		mainPanicked = h.call("Main", func() { status = c18mainViaFlags(ctx, &asm, &stubs, &diag, stats, mx == 0) })
 	} else {
 		mainPanicked = h.call("Main", func() { status = build.Main(cfg, ctx) })
 	}
@@ -2834,16 +2880,25 @@ func c18run(r *rng, limits map[int]int, stats map[string]int, script func(h *c18
 		return n
 	}
 	diagLines := strings.Count(diag.String(), "\n")
-	if !mainPanicked && diagLines >= len(msgs)+nlIn(msgs) {
-		diagLines -= nlIn(msgs)
+	loggedMsgs := msgs
+	if mx > 0 && len(loggedMsgs) > mx {
+		loggedMsgs = loggedMsgs[:mx]
+	}
+	if !mainPanicked && diagLines >= len(loggedMsgs)+nlIn(loggedMsgs) {
+		diagLines -= nlIn(loggedMsgs)
 	}
 	perr := "-"
 	if len(msgs) == 0 && status != 0 && !mainPanicked {
 		perr = c18classifyPass(diag.String())
 	}
+	// the status of a generation is what the operating system keeps of os.Exit(status): its low 8 bits
+	// (the acceptor does this reduction itself, on the value Main returned)
 	st := "0"
-	if status != 0 {
+	if uint8(status) != 0 {
 		st = "1"
+	}
+	if status != 0 && uint8(status) == 0 {
+		stats["status_multiple_of_256"]++
 	}
 	if mainPanicked {
 		st = "panic"
@@ -2854,7 +2909,8 @@ func c18run(r *rng, limits map[int]int, stats map[string]int, script func(h *c18
 	}
 	mainLine := strings.Join([]string{"s", st, "a", c18bit(asm.Len() > 0), "t", c18bit(stubs.Len() > 0), "d", itoa(diagLines)}, " ")
 
-	out := c18result{req: "c18 " + line, resp: respLine, mainReq: "c18main " + line, mainResp: mainLine}
+	out := c18result{req: "c18 " + line, resp: respLine, mainReq: "c18main " + line, mainResp: mainLine,
+		api: route, hdrRest: hdrRest, toks: h.toks, msgs: msgs, errs: nResultErrs, clean: h.nilCalls == 0 && h.panics == 0 && !mainPanicked}
 	ostatus := status
 	if mainPanicked {
 		ostatus = 0
@@ -2923,16 +2979,7 @@ func init() {
 		defer o.close()
 		// allocatable registers per kind, from the compiled register families (cross-checked
 		// against the regenerated table by the driver: request c18lim)
-		limits := map[int]int{}
-		for _, k := range []reg.Kind{reg.KindGP, reg.KindVector, reg.KindOpmask} {
-			ids := map[reg.ID]bool{}
-			for _, p := range reg.FamilyOfKind(k).Registers() {
-				if p.Info()&reg.Restricted == 0 {
-					ids[p.ID()] = true
-				}
-			}
-			limits[int(k)] = len(ids)
-		}
+		limits := c18limits()
 		o.emit("c18lim", fmt.Sprintf("%d %d %d", limits[1], limits[2], limits[3]))
 		c18scratch = filepath.Join(filepath.Dir(*f.ops), fmt.Sprintf("c18files-%d", os.Getpid()))
 		if err := os.MkdirAll(c18scratch, 0o755); err != nil {
@@ -2945,35 +2992,67 @@ func init() {
 		classes := map[string]int{}
 		sizes := map[string]int{}
 		r := newRng(*f.seed)
+		// what the operating system keeps of os.Exit(k), measured in child processes
+		for _, k := range c18exitKs {
+			o.emit(fmt.Sprintf("c18exit %d", k), itoa(c18measureExit(k)))
+		}
+		// fixed histories first; an entry with a spec is also run through the child-process route
+		type planned struct {
+			opt   c18opt
+			spec  string // how the child rebuilds the script ("" = not run in a child)
+			child int    // 1: child with -e, 2: child with the default limit
+		}
+		var plan []planned
+		for _, sc := range c18scripts {
+			plan = append(plan, planned{opt: c18opt{script: sc, flags: 1}})
+		}
+		// long histories: k faults, k around every multiple of 256 (the process exit status keeps 8 bits)
+		for i, k := range c18longKs {
+			for j, kind := range []string{"same", "mixed"} {
+				spec := fmt.Sprintf("long:%s:%d", kind, k)
+				sc := c18longScript(kind, k)
+				pkg := (i+j)%3 == 2
+				plan = append(plan,
+					planned{opt: c18opt{script: sc, pkg: pkg, flags: 1}, spec: spec, child: 1 + (i+j)%2},
+					planned{opt: c18opt{script: sc, pkg: !pkg, flags: 2, limit: 1 + (i+j+1)%2}})
+			}
+		}
 		// the boundary of the toolchain's tag-character table, swept: one small history per edge
 		// code point (quick: one route/position per code point, in rotation; thorough: all 24)
-		var scripts []func(h *c18hist)
-		var scriptPkg []bool
-		for _, sc := range c18scripts {
-			scripts = append(scripts, sc)
-			scriptPkg = append(scriptPkg, false)
-		}
 		edges := c18edgeRunes()
 		stats["cons_edge_runes"] = len(edges)
 		for i, x := range edges {
 			if *f.tier == "thorough" {
 				for k := 0; k < 24; k++ {
-					scripts = append(scripts, c18edgeScript(x, k))
-					scriptPkg = append(scriptPkg, (i+k)%4 == 3)
+					plan = append(plan, planned{opt: c18opt{script: c18edgeScript(x, k), pkg: (i+k)%4 == 3, flags: 1}})
 				}
 			} else {
-				scripts = append(scripts, c18edgeScript(x, i+int(*f.seed%24)))
-				scriptPkg = append(scriptPkg, i%4 == 3)
+				plan = append(plan, planned{opt: c18opt{script: c18edgeScript(x, i+int(*f.seed%24)), pkg: i%4 == 3, flags: 1}})
 			}
 		}
-		total := *f.n + len(scripts) - len(c18scripts)
-		for k := 0; k < total; k++ {
-			var script func(h *c18hist)
-			pkg := false
-			if k < len(scripts) {
-				script, pkg = scripts[k], scriptPkg[k]
+		// data placements around the 64 … 4096-byte boundaries, swept (quick: every fourth case, rotating with the seed)
+		for i, c := range c18dataSweep() {
+			if *f.tier == "thorough" || (i/16+i)%4 == int(*f.seed%4) {
+				plan = append(plan, planned{opt: c18opt{script: c18dataScript(c), pkg: i%5 == 4, flags: 1}})
 			}
-			res := c18run(r.fork(), limits, stats, script, pkg)
+		}
+		fixed := len(plan)
+		stats["fixed_histories"] = fixed
+		total := *f.n + fixed - len(c18scripts)
+		for k := 0; k < total; k++ {
+			var pl planned
+			if k < fixed {
+				pl = plan[k]
+			} else if k%48 == 0 {
+				// a random history also through the child-process route
+				pl.spec, pl.child = "-", 1+(k/48)%2
+			}
+			fr := r.fork()
+			state := fr.s
+			res := c18run(fr, limits, stats, pl.opt)
+			if pl.spec != "" && res.clean {
+				o.emit(c18childObserve(state, pl.spec, res, pl.child == 1, stats), "ok")
+			}
 			if res.req != "" {
 				o.emit(res.req, res.resp)
 				o.emit(res.mainReq, res.mainResp)
